@@ -14,8 +14,8 @@ type serverCfg struct {
 }
 
 var serverCfgs = []serverCfg{
-	{BatchLimit: 1, Compress: true},
-	{BatchLimit: 2, Compress: true},
+	{BatchLimit: 1, Compress: true}, // zstd responses (the client asks for zstd first)
+	{BatchLimit: 2, Compress: false},
 	{BatchLimit: 3, Compress: false},
 	{BatchLimit: 1, Compress: false},
 }
@@ -54,7 +54,7 @@ func shortShapes() []History {
 	// X1: plain exchange, four turns incl. a zero-row result carrying its
 	// token, per-batch metadata, a locally refused input, then cancel.
 	out = append(out, History{
-		Shape: "X1", Method: "x_plain", Server: 0,
+		Shape: "X1", Method: "x_plain", Server: 3,
 		Script: svc.Script{Seed: 7, InitAct: svc.ActOK, Header: true, DeclInput: true, Turns: []svc.Turn{
 			{Act: svc.ActEmit, Rows: -1, Logs: []svc.Log{{Level: "INFO", Msg: "turn zero"}}},
 			{Act: svc.ActEmit, Rows: 0, Meta: []svc.KV{kv("vgi_batch_index", "1")}},
@@ -80,7 +80,7 @@ func shortShapes() []History {
 	})
 	// X3: the server panics at turn 0 (uncompressed server).
 	out = append(out, History{
-		Shape: "X3", Method: "x_plain", Server: 2,
+		Shape: "X3", Method: "x_plain", Server: 0,
 		Script: svc.Script{Seed: 3, InitAct: svc.ActOK, Header: true, DeclInput: true, Turns: []svc.Turn{
 			{Act: svc.ActPanic, Panic: svc.PanicSpec{Kind: "string", Val: "scripted panic zero"}},
 		}},
